@@ -64,7 +64,7 @@ def gen_piece(r, depth=2):
             body += "z"
         return 'r%s"%s"%s.to_string()' % ("#" * n, body, "#" * n), body
     if k < 0.55:
-        c, v = r.choice([("'}'", "}"), ("'{'", "{"), ("','", ","), ("';'", ";"), ("'\\''", "'"), ("'\"'", '"'), ("'\\\\'", "\\"), ("'('", "("), ("'\\u{7d}'", "}"), ("'é'", "é"), ("'\\n'", "\n"), ("b'}' as char", "}"), ("'r'", "r"), ("'/'", "/")])
+        c, v = r.choice([("'}'", "}"), ("'{'", "{"), ("','", ","), ("';'", ";"), ("'\\''", "'"), ("'\"'", '"'), ("'\\\\'", "\\"), ("'('", "("), ("'\\u{7d}'", "}"), ("'é'", "é"), ("'\\n'", "\n"), ("(b'}' as char)", "}"), ("'r'", "r"), ("'/'", "/")])
         return "%s.to_string()" % c, v
     if k < 0.63:
         return "{ fn f<'a>(x: &'a str) -> &'a str { x } f(\"q\").to_string() }", "q"
